@@ -21,6 +21,11 @@ import DracoProofs.SkipEquiv
   (the header is readable and announces encoder method 0; then `decodeGeometry = decodeGeometrySeq`
   by `decodeGeometry_eq_seq`).  Edgebreaker and kd-tree streams are NOT covered by these theorems
   (for them the property is checked by the executable `Spec.skipCheck` on implementation outputs).
+  Both attribute controllers are covered: bitstreams ≥ 2.0 (`decodeSequentialAttributes`) and
+  bitstreams < 2.0 (`decodeSequentialAttributesLegacy`; `fr.legacy = true` in the front).  For
+  the latter the accept sets of ordinary and skipped decode coincide
+  (`skip_accept_iff_legacy(_seq)`): the two checks run while decoding, whatever the skip list, so
+  the `Blocked` asymmetry of `skip_equiv` / `skip_reject_same_prefix` only arises for ≥ 2.0.
   `skip_of_normal_with` reduces the main direction for the complete decoder on all streams to the
   same statement (`SkipGeomOK`) about the two body decoders, which is not proved here.
 
@@ -427,15 +432,17 @@ theorem skip_equiv_seq (S : List Nat) (s : DSt) :
     state `s'`), then the ordinary decode has read exactly the same input and performed the same
     allocations — its final state is `s'` with the error status set — and it failed in
     `TransformAttributesToOriginalFormat` at one of the two checks that the skipped path does
-    not evaluate: among the per-attribute states `sts` produced by `decodeSeqStates` (run for
-    the geometry's number of points, ending in `s'`) there is one whose type is in `S` and that
-    is an integer-coded attribute with a declared data type outside INT8..UINT32, or a normal
-    attribute whose octahedral quantization is outside 2..30 bits. -/
+    not evaluate: the stream is of bitstream version ≥ 2.0 (`fr.legacy = false`; the controller
+    of older streams runs both checks while decoding, whatever the skip list) and among the
+    per-attribute states `sts` produced by `decodeSeqStates` (run for the geometry's number of
+    points, ending in `s'`) there is one whose type is in `S` and that is an integer-coded
+    attribute with a declared data type outside INT8..UINT32, or a normal attribute whose
+    octahedral quantization is outside 2..30 bits. -/
 theorem skip_reject_same_prefix_seq (S : List Nat) (s s' : DSt) (rS : DecodeResult)
     (h0 : (decodeGeometrySeq {} s).1 = none)
     (hS : decodeGeometrySeq { skip := S } s = (some rS, s')) :
     decodeGeometrySeq {} s = (none, if s'.status == .ok then { s' with status := .error } else s') ∧
-    ∃ fr sts x, geomFront s = (some fr, s') ∧ fr.states = some sts ∧
+    ∃ fr sts x, geomFront s = (some fr, s') ∧ fr.states = some sts ∧ fr.legacy = false ∧
       (∃ s0, decodeSeqStates fr.numPoints s0 = (some sts, s')) ∧
       x ∈ sts ∧ x.desc.attType ∈ S ∧
       ((x.decoderType = 1 ∧ ¬ (1 ≤ x.desc.dataType ∧ x.desc.dataType ≤ 6)) ∨
@@ -478,7 +485,8 @@ theorem skip_reject_same_prefix_seq (S : List Nat) (s s' : DSt) (rS : DecodeResu
     rcases hxS with hm | hnb
     · exact hm
     · exact absurd hb hnb
-  exact ⟨fr, sts, x, hfr, hst, geomFront_states s fr s' hfr sts hst, hx, hm, hb⟩
+  obtain ⟨hleg, hstates⟩ := geomFront_blocked_not_legacy s s' fr hfr sts hst x hx hb
+  exact ⟨fr, sts, x, hfr, hst, hleg, hstates, hx, hm, hb⟩
 
 /-- `bs1` with the declared data type changed to FLOAT32 (9): an integer-coded attribute whose
     values cannot be stored by `StoreValues` -/
@@ -504,6 +512,48 @@ example : ∃ rS s', (decodeGeometrySeq {} { rest := bs2 }).1 = none ∧
     cases o with
     | none => cases h2
     | some rS => exact ⟨rS, s', h1, rfl⟩
+
+/-- `bs1` as a stream of bitstream version 1.3 (the number of attributes is a uint32 there): it
+    is decoded by the attribute controller of bitstreams < 2.0 -/
+def bsL : Bytes :=
+  [68, 82, 65, 67, 79, 1, 3, 0, 0, 0, 0,  1, 0, 0, 0,  1,  1, 0, 0, 0,  0, 2, 1, 0, 0,  1,
+   254, 0, 1, 6]
+
+/-- For streams of bitstream version < 2.0 (`fr.legacy = true`) the option does not change the
+    set of accepted streams at all: the attribute controller of those streams runs the two checks
+    while it decodes, for every attribute and whatever the skip list. -/
+theorem skip_accept_iff_legacy_seq (S : List Nat) (s s1 : DSt) (fr : GeomFront)
+    (hfr : geomFront s = (some fr, s1)) (hl : fr.legacy = true) :
+    (decodeGeometrySeq {} s).1.isSome ↔ (decodeGeometrySeq { skip := S } s).1.isSome := by
+  rw [skip_equiv_seq S s]
+  constructor
+  · intro h; exact h.1
+  · intro h
+    refine ⟨h, ?_⟩
+    rintro ⟨fr', s1', sts, x, hfr', hst, hx, _, hb⟩
+    rw [hfr] at hfr'
+    cases hfr'
+    exact geomFront_legacy_notBlocked s s1 fr hfr hl sts hst x hx hb
+
+/-- non-vacuity: `bsL` has a legacy front, and the theorems above apply to it (it is accepted,
+    with the uint8 value 3 resp. the int32 value 3) -/
+example : ∃ fr s1, geomFront { rest := bsL } = (some fr, s1) ∧ fr.legacy = true := by
+  have h : (geomFront { rest := bsL }).1.map (·.legacy) = some true := by decide +kernel
+  cases hd : geomFront { rest := bsL } with
+  | mk o s1 =>
+    rw [hd] at h
+    cases o with
+    | none => cases h
+    | some fr => exact ⟨fr, s1, rfl, by simpa using h⟩
+
+example :
+    (decodeGeometrySeq {} { rest := bsL }).1.map (·.geometry.atts) =
+      some [{ attType := 0, dataType := 2, numComponents := 1, normalized := false, uniqueId := 0,
+              numValues := 1, map := none, values := [3] }] ∧
+    (decodeGeometrySeq { skip := [0] } { rest := bsL }).1.map (·.geometry.atts) =
+      some [{ attType := 0, dataType := 5, numComponents := 1, normalized := false, uniqueId := 0,
+              numValues := 1, map := none, values := [3, 0, 0, 0] }] := by
+  decide +kernel
 
 /-! ## the complete decoder `decodeGeometry`, on sequential streams
 
@@ -625,7 +675,7 @@ theorem skip_reject_same_prefix (S : List Nat) (s s' : DSt) (rS : DecodeResult)
     (h0 : (decodeGeometry {} s).1 = none)
     (hS : decodeGeometry { skip := S } s = (some rS, s')) :
     decodeGeometry {} s = (none, if s'.status == .ok then { s' with status := .error } else s') ∧
-    ∃ fr sts x, geomFront s = (some fr, s') ∧ fr.states = some sts ∧
+    ∃ fr sts x, geomFront s = (some fr, s') ∧ fr.states = some sts ∧ fr.legacy = false ∧
       (∃ s0, decodeSeqStates fr.numPoints s0 = (some sts, s')) ∧
       x ∈ sts ∧ x.desc.attType ∈ S ∧
       ((x.decoderType = 1 ∧ ¬ (1 ≤ x.desc.dataType ∧ x.desc.dataType ≤ 6)) ∨
@@ -634,6 +684,31 @@ theorem skip_reject_same_prefix (S : List Nat) (s s' : DSt) (rS : DecodeResult)
   rw [decodeGeometry_eq_seq _ s hs] at h0 hS
   rw [decodeGeometry_eq_seq {} s hs]
   exact skip_reject_same_prefix_seq S s s' rS h0 hS
+
+/-- complete decoder, sequential streams of bitstream version < 2.0: the option does not change
+    the set of accepted streams (see `skip_accept_iff_legacy_seq`) -/
+theorem skip_accept_iff_legacy (S : List Nat) (s s1 : DSt) (fr : GeomFront) (hs : IsSeqStream s)
+    (hfr : geomFront s = (some fr, s1)) (hl : fr.legacy = true) :
+    (decodeGeometry {} s).1.isSome ↔ (decodeGeometry { skip := S } s).1.isSome := by
+  rw [decodeGeometry_eq_seq _ s hs, decodeGeometry_eq_seq { skip := S } s hs]
+  exact skip_accept_iff_legacy_seq S s s1 fr hfr hl
+
+theorem bsL_seq : IsSeqStream { rest := bsL } := isSeqStream_of_eval _ (by decide +kernel)
+
+/-- non-vacuity on a legacy stream: `skip_of_normal` for the complete decoder applies to `bsL` -/
+example : ∃ r s' rS, IsSeqStream { rest := bsL } ∧
+    decodeGeometry {} { rest := bsL } = (some r, s') ∧
+    decodeGeometry { skip := [0] } { rest := bsL } = (some rS, s') ∧
+    List.Forall₂ (SkipRel [0]) r.geometry.atts rS.geometry.atts := by
+  have h : (decodeGeometry {} { rest := bsL }).1.isSome = true := by decide +kernel
+  cases hd : decodeGeometry {} { rest := bsL } with
+  | mk o s' =>
+    rw [hd] at h
+    cases o with
+    | none => cases h
+    | some r =>
+      obtain ⟨rS, h1, _, _, _, _, h2⟩ := skip_of_normal [0] _ s' r bsL_seq hd
+      exact ⟨r, s', rS, bsL_seq, rfl, h1, h2⟩
 
 /-- The converse of `skip_of_normal` is FALSE of the code: the sequential stream `bs2` is
     accepted by the complete decoder when the transform of POSITION attributes is skipped and
@@ -706,12 +781,13 @@ theorem skip_of_normal_with (eb kd : DecOpts → DecM Geometry) (heb : SkipGeomO
     have hfin' : finishGeom {} fr s1 = (some r, s') := hfin
     rw [finishGeom_eq, DecM.ofOption_some] at hfin'
     obtain ⟨hpure, rfl⟩ := hfin'
+    rw [finishGeomPureV_eq s s' fr hfr] at hpure
     obtain ⟨rS, hrS, hsame⟩ := finishGeomPure_rel (SkipRel S) [] S fr
       (fun sts hst x hxm a ha =>
         finishPure_skipRel S fr.numPoints x (geomFront_wf s s' fr hfr sts hst x hxm) a ha) r hpure
     refine ⟨rS, (decodeStreamWith_some_iff eb kd _ s s' rS).2 ⟨.seq fr, s', hfg, ?_⟩, hsame⟩
     show finishGeom { skip := S } fr s' = (some rS, s')
-    rw [finishGeom_eq, DecM.ofOption_some]
+    rw [finishGeom_eq, DecM.ofOption_some, finishGeomPureV_eq s s' fr hfr]
     exact ⟨hrS, rfl⟩
   | eb md =>
     obtain ⟨rS, hrS, hsame⟩ := body eb md heb hfin
